@@ -54,7 +54,29 @@ def specs(tier, seed):
         out.append({"seed": seed * 100000 + 1900 + i,
                     "sess": {"qtype": common.QTYPES[i % 7], "lazy": i % 2, "fragsize": None},
                     "relay": {"qcase": "lower"}, "redeliver": red, "pkts": pk, "dur_ms": 20000, "label": "reddense%d" % i})
-    return common.fit_frag(out)
+    # a downstream packet that needs more than 16 fragments stalls at fragment 16 (its acks can never match) and is
+    # re-sent with every answer until the re-send limit drops it: every case-flipped copy of the HELD ping that is
+    # processed as a query of its own is one more re-send, and some of them are the one that drops the packet (only
+    # the first copy of a ping can be: once the held ping is answered the query memory suppresses the others, so the
+    # copies are left out for every third ping to vary which send is the one that crosses the limit)
+    for i in range(8 if tier == "quick" else 60):
+        red = {}
+        for n in range(3, 160):
+            red[n] = [[0, (n + j) % 2, 1 + j, 0, 20 + 25 * j] for j in range(0 if (n + i) % 3 == 0 else 1 + (n // 3) % 2)]
+        out.append({"seed": seed * 100000 + 2000 + i,
+                    "sess": {"qtype": common.QTYPES[i % 7], "lazy": 1, "fragsize": [3, 5, 8][i % 3]},
+                    "relay": {"qcase": "lower"}, "redeliver": red, "nofit": True,
+                    "pkts": [[100 + 5000 * j, "S", "C0", "rand", 200 + 100 * (j % 3)] for j in range(6)],
+                    "dur_ms": 40000, "label": "redstall%d" % i})
+    out = common.fit_frag(out)
+    # regression scenarios: recorded runs that exposed a genuine defect (known_findings.json, "fixed:" entries)
+    import glob
+    import os
+    for f in sorted(glob.glob(os.path.join(os.path.dirname(__file__), "regress", "c16-*.json"))):
+        sp = json.load(open(f))
+        sp["label"] = "regress/" + os.path.basename(f)[:-5]
+        out.append(sp)
+    return out
 
 
 def sig(r, rej):
